@@ -6,7 +6,7 @@ import PhpVerif.Lemmas.Rows
 C16 — The Go-syntax dump is a complete and faithful rendering of the tree.
 
 Tie: T-gen (dumper.go per-kind bodies, node.go schema); helper bodies are
-hand-modelled (Model/Dumper.lean) and tied T-diff through the driver.
+hand-modelled (Model/Dumper.lean), their text pinned, and tied T-diff through the driver (diff-dumper).
 -/
 namespace PhpVerif.C16
 open PhpVerif PhpVerif.Gen
